@@ -71,6 +71,7 @@ CHECKS["C14"] = {
     "runs": [
         {"bin": "asan/C14", "cases": P(500, 6000), "procs": P(8, 16), "size": 70, "shrink_budget": 300},
     ],
+    "extra_targets": ["asan/tools/unzck"],
 }
 
 CHECKS["C15"] = {
@@ -153,6 +154,7 @@ CHECKS["C09"] = {
     "runs": [
         {"bin": "asan/C09", "cases": P(6000, 60000), "procs": P(8, 16), "size": 70, "shrink_budget": 300},
     ],
+    "extra_targets": ["asan/tools/zck_read_header"],
 }
 
 CHECKS["C10"] = {
